@@ -113,7 +113,9 @@ func (c *codec) checkBytes(t ev.TB, b []byte) (string, bool) {
 	case d0.err == nil:
 		verdict = "accepted"
 		if c.whole && d0.consumed != len(b) {
-			ev.Violation(t, "C18/accepted-bytes-not-reencodable/"+c.name, "%s: accepted but consumed only %d of %d bytes", c.name, d0.consumed, len(b))
+			// an io.EOF raised inside an event (e.g. by the SP800-155 body parser reaching the end of
+			// its chunk) is taken for the end of the log: the event and everything after it is dropped
+			ev.Violation(t, keyLogTruncated, "%s: %s accepted as %+v but only %d of %d bytes were consumed: an EOF inside an event ended the log and the remaining bytes were silently ignored", c.name, hx(b), d0.m, d0.consumed, len(b))
 			return "", false
 		}
 		var re []byte
